@@ -4,7 +4,7 @@ import gen
 from props import gpcommon as G
 
 SCEN_FLAGS = {0: "callback_or_poll_had_to_wait_for_reader", 3: "barrier_with_pending_callbacks", 4: "poll_handle_taken_while_worker_active",
-              5: "chained_callback", 6: "per_cpu_helpers", 7: "per_thread_helper", 9: "passive_drain", 10: "concurrent_barriers",
+              5: "chained_callback", 6: "per_cpu_helpers", 7: "per_thread_helper", 9: "passive_drain", 10: "concurrent_barriers", 11: "poll_counter_fast_forwarded_near_wrap",
               48: "futex_sleep", 49: "wake_hit_sleeping_thread", 50: "delayed_store", 51: "store_forwarded", 52: "membarrier",
               55: "cas_fail", 56: "mutex_block", 57: "stale_read"}
 FLAVORS = ["memb", "mb", "qsbr", "bp"]
@@ -26,6 +26,12 @@ def make_example(focus):
         f = draw(st.sampled_from(focus)) if isinstance(focus, (list, tuple)) else focus
         prog, nops = gen.crcu_program(draw, tier, flavor, f)
         head = ["scen crcu_" + flavor, "cfg membarrier %d" % memb]
+        if f == "poll":
+            # history prefix: the polling grace-period counter starts where a long-running process would have it (URCU_VERIF fast-forward hook):
+            # 0 untouched, 1 just below ULONG_MAX (ids wrap to 0 during the case), 2 just below LONG_MAX (signed wrap), 3 somewhere else
+            pk = draw(st.sampled_from([0, 0, 1, 1, 2, 3]))
+            if pk:
+                head += ["cfg pollbase %d" % pk, "cfg polloff %d" % (draw(st.integers(0, 3)) if pk < 3 else draw(st.integers(1, 1 << 20)))]
         out = []
         for _ in range(gen.BATCH):
             sched = gen.schedule_lines(draw, tier, len(nops), nops, ndaemons=4, faults=("futex_eintr", "futex_spurious"), fault_max=2)
